@@ -7,11 +7,49 @@ Correspondence helpers of the collection cluster (C07 / C08 / C16).
 * wrappers that render the answers of the real functions in the format of the driver ops.
 """
 import ast
+import re
 import os
 import types
 import warnings
 
 from ..codec import enc, dec, enc_list, dec_list
+
+# ---------------------------------------------------------------------------- how a generated source is stored on disk
+# A generated module may end with the comment `# xdv-variant: <name>` : the way its FILE is written (the text itself is
+# kept with \n line ends everywhere in the harness). plain | bom | crlf | bom+crlf | cr | latin1 (ASCII-only text under a
+# latin-1 coding cookie). Keeping the choice inside the text makes every recorded input replay the same bytes.
+VARIANTS = ('plain', 'bom', 'crlf', 'bom+crlf', 'cr', 'latin1')
+_VARIANT_RE = re.compile(r'^# xdv-variant: (\S+)\s*$', re.M)
+
+
+def variant_of(source):
+    m = None
+    for m in _VARIANT_RE.finditer(source[-200:]):
+        pass
+    return m.group(1) if m and m.group(1) in VARIANTS else 'plain'
+
+
+def to_bytes(source):
+    """the bytes of the module file"""
+    v = variant_of(source)
+    text = source
+    if 'crlf' in v:
+        text = text.replace('\n', '\r\n')
+    elif v == 'cr':
+        text = text.replace('\n', '\r')
+    data = text.encode('latin-1' if v == 'latin1' else 'utf-8')
+    if 'bom' in v:
+        data = b'\xef\xbb\xbf' + data
+    return data
+
+
+def as_seen(source):
+    """the text xdoctest works on after reading the file (`read().decode('utf-8')`: a BOM stays as U+FEFF)"""
+    try:
+        return to_bytes(source).decode('utf-8')
+    except UnicodeDecodeError:
+        return source
+
 
 # ---------------------------------------------------------------------------- mini-AST
 
@@ -138,7 +176,7 @@ def _stmts(body, env, runs=True):
 
 def module_tokens(source, modname='mod'):
     """protocol field: `;`-joined tokens `doc tree`"""
-    tree = ast.parse(source)
+    tree = ast.parse(to_bytes(source) if isinstance(source, str) else source)     # bytes: BOM, cookie, \r\n as CPython reads them
     _IMPORTED[0] = imported_names(tree)
     env = {'__name__': modname, 'FLAG': False, 'range': range}
     toks = _doc_tokens(tree) + _stmts(tree.body, env) + ['E']
@@ -234,7 +272,7 @@ def real_calldefs(source):
     import contextlib
     try:
         with contextlib.redirect_stdout(io.StringIO()):
-            cds = static_analysis.parse_static_calldefs(source=source)
+            cds = static_analysis.parse_static_calldefs(source=as_seen(source))
     except IndexError:
         return 'error:IndexError', None
     except Exception as ex:
